@@ -31,7 +31,7 @@ Definition holds (c : case) : bool :=
   | CAccept x v => spec_b x v
   | CTime s r => match strptime s, r with
                  | Some f, TVal z => Z.eqb z (timegm f)     (* a well-formed calendar text reads as that second *)
-                 | Some _, _ => false
+                 | Some f, _ => negb (timegm f <? Y10K)%Z   (* ... unless it lies beyond year 9999 (leap second 9999-12-31T23:59:60) *)
                  | None, _ => true
                  end
   end.
